@@ -42,6 +42,7 @@ def build (b : String) (v : Str) : Option (Option NPath) :=
   | "tagsTreeFile" => some (tagsTreeFile D H v)
   | "dashboardDetails" => some (dashboardDetails D H v)
   | "scrollResults" => some (scrollResults D H [] ['U'] v)
+  | "sortIndexFile" => some (sortIndexFile D H "_auto.srt".toList v)
   | _ => none
 
 def answer (real : Bool) (r : Option NPath) : String :=
